@@ -5,6 +5,7 @@
 import datetime
 import itertools
 import json
+import os
 import warnings
 from abc import ABCMeta
 from enum import IntEnum
@@ -32,6 +33,28 @@ from .base_team import BaseTeam
 from .base_worker import BaseWorker, BaseWorkerState
 from .base_workflow import BaseWorkflow
 from .base_workplace import BaseWorkplace
+
+
+# --- verification hook (off unless PDESY_VERIF=1) ---------------------------
+_VERIF_ON = os.environ.get("PDESY_VERIF") == "1"
+_verif_step_observer = None
+
+
+def set_verif_step_observer(observer):
+    """Register a callable(project, phase) notified at the phase boundaries of simulate().
+
+    Only active when the environment variable PDESY_VERIF=1 was set at import time.
+    """
+    global _verif_step_observer
+    _verif_step_observer = observer
+
+
+def _verif_notify(project, phase):
+    if _verif_step_observer is not None:
+        _verif_step_observer(project, phase)
+
+
+# -----------------------------------------------------------------------------
 
 
 class SimulationMode(IntEnum):
@@ -293,9 +316,14 @@ class BaseProject(object, metaclass=ABCMeta):
 
         self.perform_auto_task_while_absence_time = perform_auto_task_while_absence_time
 
+        if _VERIF_ON:
+            _verif_notify(self, "initialized")
+
         while True:
             # 0. Update status
             self.__update()
+            if _VERIF_ON:
+                _verif_notify(self, "updated")
 
             # 1. Check finished or not
             state_list = list(map(lambda task: task.state, self.workflow.task_list))
@@ -332,6 +360,8 @@ class BaseProject(object, metaclass=ABCMeta):
             # Update state of task newly allocated workers and facilities (READY -> WORKING)
             self.workflow.check_state(self.time, BaseTaskState.WORKING)
             self.product.check_state()  # product should be checked after checking workflow state
+            if _VERIF_ON:
+                _verif_notify(self, "allocated")
 
             # 3. Pay cost to all workers and facilities in this time
             if working:
@@ -348,9 +378,13 @@ class BaseProject(object, metaclass=ABCMeta):
                     self.__perform()
             elif perform_auto_task_while_absence_time:
                 self.workflow.perform(self.time, only_auto_task=True)
+            if _VERIF_ON:
+                _verif_notify(self, "performed")
 
             # 5. Record
             self.__record(working=working)
+            if _VERIF_ON:
+                _verif_notify(self, "recorded")
 
             # 6. Update time
             self.time = self.time + unit_time
